@@ -274,7 +274,7 @@ class iov_iterator {
 public:
     iov_iterator(iov_iterator&&) = default;
     iov_iterator(const iov_iterator&) = default;
-    iov_iterator(iovector_view v) : _iov(v.iov), _v(v.iov[0]), _iovcnt(v.iovcnt) { }
+    iov_iterator(iovector_view v) : _iov(v.iov), _v(v.iovcnt > 0 ? v.iov[0] : iovec{}), _iovcnt(v.iovcnt) { }
     bool empty() const { return _iovcnt == 0; }
     iovec front() const { return _v; }
     iov_iterator& operator += (size_t n) {
